@@ -10,6 +10,7 @@
 #include <amgcl/amg.hpp>
 #include <amgcl/adapter/crs_tuple.hpp>
 #include <amgcl/coarsening/runtime.hpp>
+#include <omp.h>
 #include <amgcl/relaxation/runtime.hpp>
 #include <amgcl/value_type/static_matrix.hpp>
 #include <amgcl/adapter/block_matrix.hpp>
@@ -52,7 +53,9 @@ template <class A> static bool access_direct(const A &a) { return access::direct
 
 static vr::opstream S;
 
-struct cfg { std::string coarsening, relax; int ncycle, npre, npost, pre_cycles; unsigned ce, ml; bool dc; double over_interp; };
+struct cfg { std::string coarsening, relax; int ncycle, npre, npost, pre_cycles; unsigned ce, ml; bool dc; double over_interp;
+    std::vector<std::pair<std::string, std::string>> rprm;      // non-default smoother parameters (relax.<name> = value)
+    std::string rprm_text() const { std::string t; for (auto &kv : rprm) t += (t.empty() ? "" : ",") + kv.first + "=" + kv.second; return t; } };
 
 static boost::property_tree::ptree ptree_of(const cfg &c) {
     boost::property_tree::ptree p;
@@ -60,12 +63,13 @@ static boost::property_tree::ptree ptree_of(const cfg &c) {
     p.put("ncycle", c.ncycle); p.put("npre", c.npre); p.put("npost", c.npost); p.put("pre_cycles", c.pre_cycles);
     p.put("coarse_enough", c.ce); p.put("max_levels", c.ml); p.put("direct_coarse", c.dc);
     if (c.coarsening == "aggregation" && c.over_interp > 0) p.put("coarsening.over_interp", c.over_interp);
+    for (auto &kv : c.rprm) p.put("relax." + kv.first, kv.second);
     return p;
 }
 static bool symmetric_smoother(const std::string &r) { return r == "damped_jacobi" || r == "spai0" || r == "gauss_seidel" || r == "ilu0" || r == "iluk" || r == "ilup" || r == "chebyshev"; }
 static void put_cfg(vr::obj &o, const cfg &c, int levels, bool direct) {
     o.str("coarsening", c.coarsening).str("relax", c.relax).i("ncycle", c.ncycle).i("npre", c.npre).i("npost", c.npost).i("pre_cycles", c.pre_cycles)
-     .i("levels", levels).b("direct", direct).b("oi_gt1", c.coarsening == "aggregation" && c.over_interp > 1.0).b("symsm", symmetric_smoother(c.relax));
+     .i("levels", levels).b("direct", direct).b("oi_gt1", c.coarsening == "aggregation" && c.over_interp > 1.0).b("symsm", symmetric_smoother(c.relax)).str("rprm", c.rprm_text()).i("nt", omp_get_max_threads());
 }
 
 static const char *COARSENINGS[] = {"aggregation", "smoothed_aggregation", "smoothed_aggr_emin", "ruge_stuben"};
@@ -77,6 +81,19 @@ static cfg random_cfg(vr::rng &g, int n) {
     c.ce = g.coin(0.7) ? g.range(2, std::max(3, n / 8)) : g.range(n / 4, n); c.ml = g.coin(0.8) ? 100 : g.range(1, 3); c.dc = g.coin(0.75);
     c.over_interp = g.coin() ? 1.5 : (g.coin() ? 1.0 : 2.0);
     return c;
+}
+// non-default smoother parameters for half of the cases (the cycle must stay a fixed linear SPD contraction for
+// every admissible value: damping <= 1 for the splitting smoothers, any degree / scaling choice for Chebyshev)
+static void random_rprm(vr::rng &g, cfg &c) {
+    c.rprm.clear();
+    if (g.coin()) return;
+    static const char *DAMP[] = {"0.5", "0.72", "0.9", "1"};
+    if (c.relax == "chebyshev") { c.rprm.push_back({"scale", g.coin(0.7) ? "true" : "false"}); c.rprm.push_back({"degree", std::to_string(g.range(2, 6))}); }
+    else if (c.relax == "damped_jacobi") c.rprm.push_back({"damping", DAMP[g.below(3)]});
+    else if (c.relax == "ilu0") c.rprm.push_back({"damping", DAMP[1 + g.below(3)]});
+    else if (c.relax == "iluk") { c.rprm.push_back({"k", std::to_string(g.range(1, 3))}); if (g.coin()) c.rprm.push_back({"damping", DAMP[1 + g.below(3)]}); }
+    else if (c.relax == "ilup") { c.rprm.push_back({"k", std::to_string(g.range(1, 2))}); }
+    else if (c.relax == "ilut") { c.rprm.push_back({"p", g.coin() ? "1.5" : "3"}); c.rprm.push_back({"tau", g.coin() ? "1e-3" : "1e-1"}); }
 }
 
 // ------------------------------------------------------------------ mode ops
@@ -253,6 +270,7 @@ int main(int argc, char **argv) {
             auto A = r % 3 == 0 ? vr::poisson2d(g.range(4, 9), g.range(3, 8)) : vr::random_mmatrix(g, g.range(20, 70), 0.08, 3, 1);
             cfg c = random_cfg(g, A->nrows);
             if (r < 36) { c.coarsening = COARSENINGS[r % 4]; c.relax = RELAX[r % 9]; }    // every coarsening and relaxation at least once
+            if (r >= 36 || r % 2) random_rprm(g, c);
             if (r % 10 == 9) c.pre_cycles = 0;
             ops_case(A, c, g);
         }
@@ -261,10 +279,14 @@ int main(int argc, char **argv) {
         for (int r = 0; r < reps; ++r) {
             int fam = r % 3;
             // SPD, irreducibly diagonally dominant M-matrices with real (non-dyadic) weights, contrast <= 1e3
-            std::shared_ptr<crsd> A = fam == 0 ? real_grid(g, g.range(6, 14), g.range(5, 12), fam_contrast(g))
+            // VERIF_SMALL: the many-thread pass (every parallel region costs a wake-up of all threads) uses smaller systems
+            static const bool small = vr::env_int("VERIF_SMALL", 0) != 0;
+            std::shared_ptr<crsd> A = small ? (fam == 0 ? real_grid(g, g.range(6, 8), g.range(5, 7), fam_contrast(g)) : real_graph(g, g.range(36, 60), 0.07, fam_contrast(g)))
+                                    : fam == 0 ? real_grid(g, g.range(6, 14), g.range(5, 12), fam_contrast(g))
                                     : real_graph(g, fam == 1 ? g.range(60, 180) : g.range(40, 120), fam == 1 ? 0.03 : 0.05, fam_contrast(g));
             cfg c = random_cfg(g, A->nrows);
             if (r < 36) { c.coarsening = COARSENINGS[r % 4]; c.relax = RELAX[r % 9]; }
+            if (r >= 36 || r % 2) random_rprm(g, c);
             c.ce = g.range(3, 12); if (g.coin(0.3)) c.ml = g.range(2, 3);
             obs_case(A, c, g, true, fam == 0 ? "grid" : "graph");
         }
